@@ -159,8 +159,18 @@ def render(ast, style):
             lines.append(pick("blankline", ""))
         k[0] += 1
 
+    nk = [0]
+
+    def spell(v, hexa):
+        """Decimal and hexadecimal spellings the documented grammar accepts: plain, zero-padded, lower-case hex digits."""
+        how = (style.get("num") or [0])[nk[0] % len(style.get("num") or [0])]
+        nk[0] += 1
+        if hexa:
+            return ["0x%X", "0x%x", "0x%04X", "0x%03x"][how % 4] % v
+        return [str(v), "0%d" % v, "%05d" % v, str(v)][how % 4]
+
     def num(a):
-        return ("0x%X" % a["num"]) if a.get("hex") else str(a["num"])
+        return spell(a["num"], a.get("hex"))
 
     def text_seg():
         if ast.get("directives") or ast["data"]:
@@ -185,7 +195,7 @@ def render(ast, style):
         if ast["data"] or ast.get("data_directive"):
             emit(".data")
         for var in ast["data"]:
-            vals = ", ".join(("0x%X" % v) if (i + len(var["name"])) % 2 else str(v) for i, v in enumerate(var["values"]))
+            vals = ", ".join(spell(v, (i + len(var["name"])) % 2) for i, v in enumerate(var["values"]))
             emit(f"{var['name']}: .word {vals}")
 
     if ast.get("data_first"):
